@@ -72,6 +72,7 @@ SCHEMA = {
     "protocols.bgp.ipv4-unicast.networks.<*:prefix>": ("E", "2,3,4,5"),   # map entry holding *BGPNetwork, set with &BGPNetwork{}
     "interfaces.<*>": ("O", "1,2"),          # whole map entry, value = *InterfaceConfig (one of the 44 struct-valued patterns)
     "vrfs.<*>": ("O", "1,2"),                # value = *ip.VRFSConfig
+    "interfaces.<*>.ipv6": ("P", "1,2,3"),   # a pointer-typed struct FIELD set as a whole, value = *IPv6Config
     "aaa.nas_identifier": ("S", "-"),
     "aaa.nas_ip": ("S", "-"),
     "_internal.punt.<*>.arp": ("N", "-"),
@@ -101,7 +102,8 @@ VALUES = {
     "L": ["l" + "10.0.0.1/24".encode().hex(), "l" + "10.0.0.1/24".encode().hex() + ":" + "192.0.2.1/32".encode().hex(),
           "l" + "65000:1".encode().hex(), hx("10.0.0.1/24"), "i5", "b1"],
     "E": ["p", "p", "p", hx("x"), "i1"],
-    "O": ["o-", "i5", hx("x"), "p"],       # besides objects (obj_value): empty struct and wrong-typed values
+    "O": ["o-", "i5", hx("x"), "p"],
+    "P": ["o-", "i5", hx("x")],       # besides objects (obj_value): empty struct and wrong-typed values
     "A": [hx("edited"), hx("x"), hx("orig"), "b1"],
 }
 _uniq = [1000]
@@ -175,7 +177,8 @@ def add_plugin_patterns(rng, pats, deps, frr):
 
 OBJ_FIELDS = {"interfaces.<*>": [("description", lambda r: hx(r.choice(["up", "core", "x y"]))), ("mtu", lambda r: "i%d" % r.choice([1500, 9000, 68])),
                                  ("enabled", lambda r: "b1"), ("unnumbered", lambda r: hx("lo0"))],
-              "vrfs.<*>": [("description", lambda r: hx(r.choice(["cust", "mgmt"]))), ("rd", lambda r: hx("65000:1"))]}
+              "vrfs.<*>": [("description", lambda r: hx(r.choice(["cust", "mgmt"]))), ("rd", lambda r: hx("65000:1"))],
+              "interfaces.<*>.ipv6": [("enabled", lambda r: "b1"), ("multicast", lambda r: "b1")]}
 
 
 def obj_value(rng, pat, path):
@@ -196,7 +199,7 @@ def good_value(rng, pat):
         return plugin_value(rng, pat)
     return {"I": "i%d" % rng.choice([1500, 9000, 1400, 68]), "U": "u%d" % rng.choice([1, 64, 65000]),
             "S": hx(rng.choice(["a", "core", "10.0.0.1"])), "B": "b1", "N": "b1",
-            "L": "l" + rng.choice(["10.0.0.1/24", "192.0.2.7/32"]).encode().hex(), "E": "p", "O": "o-"}[SCHEMA[pat][0]]
+            "L": "l" + rng.choice(["10.0.0.1/24", "192.0.2.7/32"]).encode().hex(), "E": "p", "O": "o-", "P": "o-"}[SCHEMA[pat][0]]
 
 
 def fill(pat, vals):
@@ -220,7 +223,7 @@ def rand_ops(rng, pats, deps, nops, guard=None):
     """session-structured random walk; '@' is the session holding the lock"""
     ops = []
     replaced = set()
-    has_obj = any(SCHEMA[p][0] == "O" for p in pats)     # the walker would emit whole entries: no LoadConfig / start-up
+    has_obj = any(SCHEMA[p][0] in "OP" for p in pats)     # the walker would emit whole entries: no LoadConfig / start-up
 
     def sid():
         return "@" if rng.random() < 0.9 else str(rng.choice([0, 1, 2, 3, 4, 7]))
@@ -234,7 +237,9 @@ def rand_ops(rng, pats, deps, nops, guard=None):
                     one_set(d, vals, depth + 1)
         p = pats[i]
         path = fill(p, vals)
-        if SCHEMA[p][0] == "O":
+        if any(path.startswith(r + ".") for r in replaced):
+            return      # nothing is Set below an entry that was Set as a whole earlier in the case (NewValue aliasing)
+        if SCHEMA[p][0] in "OP":
             replaced.add(path)
             if rng.random() < 0.8:
                 ops.append("s %s %s %s 0" % (sid(), path, obj_value(rng, p, path)))
@@ -385,6 +390,13 @@ def boundary_cases():
                        "s @ interfaces.eth1 i5 0", "s @ interfaces.eth1 %s 0" % hx("x"), "m @ 0:v", "c"])
     out.append(rego + ["ops", "c", "s @ interfaces.eth1 %s 0" % o1, "s @ interfaces.eth1 %s 0" % o1, "m @ 0:-",
                        "c", "s @ interfaces.eth1 %s 0" % o1, "m @ 0:-", "c", "s @ interfaces.eth1 oenabled=b1 0", "m @ 0:s", "m @ 0:-"])
+    # pointer-field struct pattern: first Set on a nil field is "modified" (typed nil OldValue), re-Set is a no-op
+    regp2 = ["reg", "3", "interfaces.<*>.ipv6", "P", "1,2,3", "-", "0", "interfaces.<*>.ipv6.enabled", "B", "1,2,3", "0", "0",
+             "interfaces.<*>.mtu", "I", "1,2", "-", "0"]
+    out.append(regp2 + ["ops", "c", "s @ interfaces.eth1.ipv6.enabled b1 0", "m @ 0:-", "c", "s @ interfaces.eth1.mtu i1500 0", "m @ 0:-",
+                        "c", "s @ interfaces.eth1.ipv6 oenabled=b1;multicast=b1 0", "m @ 0:-", "c",
+                        "s @ interfaces.eth1.ipv6 oenabled=b1;multicast=b1 0", "m @ 0:v", "c", "s @ interfaces.eth1.ipv6 omulticast=b1 0",
+                        "s @ interfaces.eth2.ipv6 o- 0", "s @ interfaces.eth2.ipv6 i5 0", "m @ 2:-", "m @ 0:-", "c"])
     for col in (False,):
         out.append(rego + recipe_tokens(("deep", col)) + ["ops", "c", "s @ interfaces.eth1 %s 0" % o1, "m @ 0:-", "c",
                    "s @ interfaces.eth1.mtu i1 0", "m @ 0:-"])
@@ -402,7 +414,7 @@ def boundary_cases():
 
 def conc_case(rng):
     """2-3 threads race create/set/commit/close on their own sessions (no faults, no reload script)"""
-    pats = rng.sample([p for p in PATS if SCHEMA[p][0] not in "NO"], rng.randint(2, 4))
+    pats = rng.sample([p for p in PATS if SCHEMA[p][0] not in "NOP"], rng.randint(2, 4))
     deps = [[] for _ in pats]
     if rng.random() < 0.4 and len(pats) > 1:
         deps[1] = [0]
